@@ -1,10 +1,129 @@
+import PdshVerif.Dsh.Fan
 import Driver.Util
 
-/-! engine stub: filled in by the owner of this engine (see FRAMEWORK.md) -/
+/-! engine `fan`: trace acceptor for the projected traces of the `sched` harness.
+
+    init <if|while> <f> <N>          start a new trace                          -> ok
+    st <tc> <R> <P> <X>              harness state before a step: threadcount, runnable threads,
+                                     parked-unsignalled threads, threads blocked on something the
+                                     model does not know (thd_mutex, poll, ...)   -> ok | reject ..
+    ev D <lock|wait|wake 0|wake 1|relock|create i|unlock|return>                  -> ok | reject ..
+    ev W<i> <connectBegin|connectEnd|destroyBegin|destroyEnd|lock|signal|unlock>  -> ok | reject ..
+    end <ok|deadlock|other>          ok: the model must be Final; deadlock: nothing enabled
+    After a reject every line up to the next `init` answers `skip`.
+    The transition function is `PdshVerif.Dsh.Fan.step`, the one the theorems are about. -/
 namespace Driver.FanDrv
+open PdshVerif.Dsh.Fan
+
+structure Acc where
+  st : Option St := none
+  dead : Bool := false
+
+def parseW (t : String) : Option Nat :=
+  if t.startsWith "W" then (t.drop 1).toNat? else none
+
+def names (t : String) : List String := if t = "-" then [] else t.splitOn ","
+
+def parseLabel : List String → Option Label
+  | ["D", "lock"] => some (.d .lock)
+  | ["D", "wait"] => some (.d .wait)
+  | ["D", "wake", "0"] => some (.d (.wake false))
+  | ["D", "wake", "1"] => some (.d (.wake true))
+  | ["D", "relock"] => some (.d .relock)
+  | ["D", "create", j] => j.toNat?.map fun j => .d (.create j)
+  | ["D", "unlock"] => some (.d .unlock)
+  | ["D", "return"] => some (.d .ret)
+  | [t, a] =>
+    match parseW t with
+    | none => none
+    | some i =>
+      match a with
+      | "connectBegin" => some (.w i .connectBegin)
+      | "connectEnd" => some (.w i .connectEnd)
+      | "destroyBegin" => some (.w i .destroyBegin)
+      | "destroyEnd" => some (.w i .destroyEnd)
+      | "lock" => some (.w i .lock)
+      | "signal" => some (.w i .signal)
+      | "unlock" => some (.w i .unlock)
+      | _ => none
+  | _ => none
+
+def enabledNames (s : St) : List String :=
+  (if dEnabled s then ["D"] else []) ++
+  ((List.range s.ws.length).filter (wEnabled s)).map fun i => s!"W{i}"
+
+def showW : W → String
+  | .idle => "idle" | .started => "started" | .connecting => "connecting" | .connected => "connected"
+  | .tearing => "tearing" | .torn => "torn" | .locked => "locked" | .signaled => "signaled" | .done => "done"
+
+def showDPC : DPC → String
+  | .top => "top" | .wait => "wait" | .parked => "parked" | .woken => "woken" | .create => "create"
+  | .unlock => "unlock" | .dtop => "dtop" | .dwait => "dwait" | .dparked => "dparked" | .dwoken => "dwoken"
+  | .dunlock => "dunlock" | .finishing => "finishing" | .returned => "returned"
+
+def showOwner : Owner → String
+  | .none => "-" | .d => "D" | .w i => s!"W{i}"
+
+/-- one line, no line breaks (the protocol is line based) -/
+def showSt (s : St) : String :=
+  s!"dpc={showDPC s.dpc} i={s.i} tc={s.tc} own={showOwner s.own} sig={s.sig} ws={",".intercalate (s.ws.map showW)}"
+
+def checkSt (s : St) (tc r p x : String) : Option String :=
+  let en := enabledNames s
+  let rs := (names r).filter fun n => n = "D" || n.startsWith "W"
+  let xs := names x
+  let ps := names p
+  if tc.toNat? ≠ some s.tc then some s!"threadcount impl={tc} model={s.tc}"
+  else
+    match rs.find? (fun n => !en.contains n) with
+    | some n => some s!"runnable in the implementation but not enabled in the model: {n} ({showSt s})"
+    | none =>
+      match en.find? (fun n => !rs.contains n && !xs.contains n) with
+      | some n => some s!"enabled in the model but not runnable in the implementation: {n} ({showSt s})"
+      | none =>
+        if spuriousEnabled s != ps.contains "D" then
+          some s!"spurious wake-up of D: model={spuriousEnabled s} impl={ps.contains "D"}"
+        else none
+
+def stepLine (a : Acc) (line : String) : Acc × String :=
+  match Driver.words line with
+  | ["init", v, f, n] =>
+    match f.toNat?, n.toNat? with
+    | some f, some n =>
+      let v := if v = "if" then Variant.ifWait else Variant.whileWait
+      ({ st := some (init v f n), dead := false }, "ok")
+    | _, _ => (a, "bad-line")
+  | "st" :: rest =>
+    if a.dead then (a, "skip") else
+    match a.st, rest with
+    | some s, [tc, r, p, x] =>
+      match checkSt s tc r p x with
+      | none => (a, "ok")
+      | some why => ({ a with dead := true }, "reject " ++ why)
+    | _, _ => (a, "bad-line")
+  | "ev" :: rest =>
+    if a.dead then (a, "skip") else
+    match a.st, parseLabel rest with
+    | some s, some l =>
+      match step s l with
+      | some s' => ({ a with st := some s' }, "ok")
+      | none => ({ a with dead := true }, s!"reject not enabled in the model: {" ".intercalate rest} ({showSt s})")
+    | _, _ => ({ a with dead := true }, "reject unknown event " ++ " ".intercalate rest)
+  | ["end", status] =>
+    if a.dead then (a, "skip") else
+    match a.st with
+    | some s =>
+      if status = "ok" then
+        if s.dpc = .returned then (a, "ok") else (a, s!"reject run ended but the model is not final ({showSt s})")
+      else if status = "deadlock" then
+        if enabledNames s = [] then (a, "ok") else (a, s!"reject implementation deadlocked, model has enabled {enabledNames s}")
+      else (a, "ok")
+    | none => (a, "bad-line")
+  | _ => (a, "bad-line")
 
 def main (_args : List String) : IO UInt32 := do
-  IO.eprintln "engine not implemented"
-  return 2
+  let stdin ← IO.getStdin
+  Driver.forLines stdin ({} : Acc) stepLine
+  return 0
 
 end Driver.FanDrv
